@@ -702,8 +702,74 @@ def gen_handoff():
             f"Definition sender_prog_gen : list sinstr := [{'; '.join(sp)}].\n"
             f"Definition disp_prog_gen : list dinstr := [{'; '.join(dp)}].\n")
 
+# ---------------------------------------------------------------------------------------------------------------
+# C17 recording step: the statements of Node._record_answer that touch `_sent_answers`, as the thread program of
+# Model/Record.v.  Fail closed.
+_E2E = "message.header.end_to_end_identifier"
 
-UNITS = {"GenIds.v": gen_ids, "GenGetters.v": gen_getters, "GenWrite.v": gen_write, "GenHandoff.v": gen_handoff}
+
+def _is_new_window(node):
+    return (isinstance(node, ast.Call) and _dotted(node.func) == "deque" and not node.args and len(node.keywords) == 1
+            and node.keywords[0].arg == "maxlen" and _dotted(node.keywords[0].value) == "self.retransmit_queue_size")
+
+
+def _is_sent_sub(node):
+    return (isinstance(node, ast.Subscript) and _is_self_attr(node.value, "_sent_answers") and _dotted(node.slice) == "origin_host")
+
+
+def _record_program(fn, path):
+    prog = []
+    for st in _strip_doc(fn.body):
+        touches = any(isinstance(x, ast.Attribute) and x.attr == "_sent_answers" for x in ast.walk(st))
+        if not touches:
+            continue
+        if isinstance(st, ast.Expr) and isinstance(st.value, ast.Call) and isinstance(st.value.func, ast.Attribute) \
+                and st.value.func.attr == "append" and [_dotted(a) for a in st.value.args] == [_E2E] and not st.value.keywords:
+            tgt = st.value.func.value
+            if isinstance(tgt, ast.Call) and isinstance(tgt.func, ast.Attribute) and tgt.func.attr == "setdefault" \
+                    and _is_self_attr(tgt.func.value, "_sent_answers") and len(tgt.args) == 2 and not tgt.keywords \
+                    and _dotted(tgt.args[0]) == "origin_host" and _is_new_window(tgt.args[1]):
+                prog.append("RSetdefaultAppend")
+                continue
+            if _is_sent_sub(tgt):
+                prog.append("RAppend")
+                continue
+        if isinstance(st, ast.If) and not st.orelse and isinstance(st.test, ast.Compare) and _dotted(st.test.left) == "origin_host" \
+                and isinstance(st.test.ops[0], ast.NotIn) and _is_self_attr(st.test.comparators[0], "_sent_answers") \
+                and len(st.body) == 1 and isinstance(st.body[0], ast.Assign) and len(st.body[0].targets) == 1 \
+                and _is_sent_sub(st.body[0].targets[0]) and _is_new_window(st.body[0].value):
+            prog.extend(["RTest", "RCreate"])
+            continue
+        raise TranslationError(f"{path}:{st.lineno}: unrecognised statement on _sent_answers in _record_answer")
+    if not prog:
+        raise TranslationError(f"{path}:{fn.lineno}: _record_answer does not touch _sent_answers")
+    return prog
+
+
+def gen_record():
+    npath, ntree = _parse("node/node.py")
+    nc = _find_class(ntree, "Node", npath)
+    rp = _record_program(_find_func(nc, "_record_answer", npath), npath)
+    # nothing else in the Node class may write the table (reads: the T-flag check; deletion of a whole origin is not done)
+    for f in nc.body:
+        if isinstance(f, ast.FunctionDef) and f.name not in ("_record_answer", "__init__"):
+            for x in ast.walk(f):
+                if isinstance(x, (ast.Assign, ast.AugAssign, ast.Delete)):
+                    tg = x.targets if not isinstance(x, ast.AugAssign) else [x.target]
+                    for t in tg:
+                        if any(isinstance(y, ast.Attribute) and y.attr == "_sent_answers" for y in ast.walk(t)):
+                            raise TranslationError(f"{npath}:{x.lineno}: {f.name} writes _sent_answers")
+                if isinstance(x, ast.Call) and isinstance(x.func, ast.Attribute) and x.func.attr in (
+                        "append", "appendleft", "pop", "popleft", "clear", "remove", "setdefault", "update", "extend") \
+                        and any(isinstance(y, ast.Attribute) and y.attr == "_sent_answers" for y in ast.walk(x.func.value)):
+                    raise TranslationError(f"{npath}:{x.lineno}: {f.name} modifies _sent_answers")
+    return ("(* GENERATED by tools/translate.py from node/node.py (Node._record_answer: the statements on _sent_answers)\n"
+            "   -- do not edit *)\n"
+            "From DV Require Import Prelude.Base Model.Record.\n"
+            f"Definition record_prog_gen : list rinstr := [{'; '.join(rp)}].\n")
+
+
+UNITS = {"GenIds.v": gen_ids, "GenGetters.v": gen_getters, "GenWrite.v": gen_write, "GenHandoff.v": gen_handoff, "GenRecord.v": gen_record}
 
 
 def regenerate(outdir, units=None):
